@@ -116,7 +116,7 @@ def _gen_s2p(rng, tier):
         if e < s:
             s, e = e, s
         pitch = rng.randint(mn - 1, mx + 1) if rng.random() < 0.3 else rng.randint(mn, mx)
-        vel = rng.randint(1, 127)
+        vel = rng.randint(1, 127) if rng.random() < 0.8 else rng.choice([1, 127, 100, 64])
         notes.append([pitch, vel, H(s), H(e)])
     if notes and rng.random() < 0.3:          # equal start times: stable sort matters for velocities
         k = rng.randrange(len(notes))
@@ -144,6 +144,8 @@ def _gen_s2p(rng, tier):
         'delay_ms': H(0.0 if rng.random() < 0.5 else rng.choice([-50, -32, -10, 10, 32, 50, 1000 / fps])),
         'overlap': plain or rng.random() < 0.75,
         'upweight': H(rng.choice([5.0, 5.0, 2.0])),
+        # declared "currently unused": drawn at non-default values, must have no effect
+        'min_vel': rng.choice([0, 0, 1, 20, 64, 127]),
     }
     if rng.random() < 0.18:
         # onsets moved before time 0: notes at / near time 0, delays -10 .. -200 ms, both onset modes, plain frames
@@ -236,7 +238,7 @@ def _gen_p2s(rng, tier):
     vv = None
     if rng.random() < 0.35:
         vv = [[rng.randrange(len(VV_PALETTE)) for _ in range(P)] for _ in range(T)]
-    return {'op': 'p2s', 'input': {'fps': H(fps), 'min_dur_ms': H(md), 'mmp': mmp, 'vv': vv,
+    return {'op': 'p2s', 'input': {'fps': H(fps), 'min_dur_ms': H(md), 'mmp': mmp, 'vv': vv, 'kw': _gen_meta(rng),
                                    'T': T, 'P': P, 'frames': [mask(r_) for r_ in frames],
                                    'onsets': None if onsets is None else [mask(r_) for r_ in onsets],
                                    'offsets': None if offsets is None else [mask(r_) for r_ in offsets]}}
@@ -263,13 +265,34 @@ def _gen_grid_on(rng, tier):
                                        'frames': [mask(r_) for r_ in m], 'vel': rng.random() < 0.5}}
 
 
+def _gen_meta(rng):
+    """velocity / instrument / program / qpm / velocity_scale / velocity_bias, each drawn independently
+    (None = leave the default)"""
+    kw = {}
+    if rng.random() < 0.5:
+        kw['velocity'] = rng.choice([1, 30, 64, 100, 127])
+    if rng.random() < 0.4:
+        kw['instrument'] = rng.choice([1, 3, 9, 15])
+    if rng.random() < 0.4:
+        kw['program'] = rng.choice([1, 24, 56, 127])
+    if rng.random() < 0.4:
+        kw['qpm'] = rng.choice([60.0, 97.5, 200.0])
+    if rng.random() < 0.4:
+        kw['velocity_scale'] = rng.choice([127, 100, 40])
+    if rng.random() < 0.4:
+        kw['velocity_bias'] = rng.choice([0, 1, 27])
+    return kw
+
+
 def _gen_o2s(rng, tier):
     fps = rng.choice(FPS)
     T = rng.randint(1, 16)
     P = rng.randint(1, 5)
     m = _gen_matrix(rng, T, P, density=0.2)
+    vv = [[rng.randrange(len(VV_PALETTE)) for _ in range(P)] for _ in range(T)] if rng.random() < 0.5 else None
     return {'op': 'o2s', 'input': {'fps': H(fps), 'dur': H(rng.choice([0.05, 0.05, 1 / fps, 0.0, 0.25])),
-                                   'mmp': rng.choice([0, 21]), 'T': T, 'P': P, 'onsets': [mask(r_) for r_ in m]}}
+                                   'mmp': rng.choice([0, 1, 21, 60]), 'T': T, 'P': P, 'onsets': [mask(r_) for r_ in m],
+                                   'vv': vv, 'kw': _gen_meta(rng)}}
 
 
 def _gen_grid(rng, tier, fps=None):
@@ -325,6 +348,7 @@ def cases(rng, tier, n=None):
         else:
             out += _exhaustive_p2s(1, True, True) + _exhaustive_p2s(2, True, True)
             out += _exhaustive_p2s(3, True, False) + _exhaustive_p2s(4, False, False)
+    rng.shuffle(out)      # (B ii) different operations / configurations interleaved in one process
     return out
 
 
@@ -343,6 +367,24 @@ def corpus():
                                        'frames': [1, 1, 1, 1], 'onsets': [1, 0, 1, 1], 'offsets': [0, 1, 0, 0]}})
     out.append({'op': 'p2s', 'input': {'fps': H(32.0), 'min_dur_ms': H(1000 / 32 * 2), 'mmp': 21, 'T': 6, 'P': 1,
                                        'frames': [1, 0, 1, 1, 0, 1], 'onsets': None, 'offsets': None}})
+    # rare legal shapes: empty sequence with total_time 0 (one row); a sequence with only out-of-range notes and an
+    # unknown onset mode (nothing to reject); pitches / velocities exactly at the ends; zero-length note;
+    # single-frame rolls; an offending velocity stored AFTER valid notes
+    base = {'fps': H(16.0), 'min_pitch': 0, 'max_pitch': 1, 'max_vel': 127, 'total': H(0.0), 'occ': H(0.0), 'blank': False,
+            'window': 1, 'onset_len_ms': H(0), 'offset_len_ms': H(0), 'mode': 'window', 'delay_ms': H(0.0), 'overlap': True,
+            'upweight': H(5.0), 'min_vel': 0}
+    out.append({'op': 's2p', 'input': {'cfg': dict(base), 'notes': [], 'ccs': []}})
+    out.append({'op': 's2p', 'input': {'cfg': dict(base, mode='bogus', total=H(1.0)), 'notes': [[5, 80, H(0.0), H(0.5)]], 'ccs': []}})
+    out.append({'op': 's2p', 'input': {'cfg': dict(base, total=H(1.0)), 'ccs': [[H(0.0), 0, 0], [H(1.0), 127, 127]],
+                                       'notes': [[0, 1, H(0.0), H(0.0)], [1, 127, H(0.5), H(1.0)], [2, 64, H(0.0), H(1.0)]]}})
+    out.append({'op': 's2p', 'input': {'cfg': dict(base, min_pitch=126, max_pitch=127, total=H(0.5), max_vel=64), 'ccs': [],
+                                       'notes': [[127, 64, H(0.0), H(0.5)], [126, 1, H(0.25), H(0.5)], [126, 65, H(0.0), H(0.25)]]}})
+    for T, P, f in [(1, 1, [1]), (1, 1, [0]), (1, 3, [5])]:
+        out.append({'op': 'p2s', 'input': {'fps': H(16.0), 'min_dur_ms': H(0), 'mmp': 3, 'T': T, 'P': P, 'frames': f,
+                                           'onsets': f, 'offsets': None, 'vv': None, 'kw': {'velocity': 1}}})
+        out.append({'op': 'o2s', 'input': {'fps': H(16.0), 'dur': H(0.0), 'mmp': 127 - P + 1, 'T': T, 'P': P, 'onsets': f,
+                                           'vv': None, 'kw': {}}})
+        out.append({'op': 'grid', 'input': {'fps': H(16.0), 'mn': 127 - P + 1, 'T': T, 'P': P, 'frames': f}})
     return out
 
 
@@ -373,7 +415,42 @@ def _run_s2p(a):
         max_velocity=c['max_vel'], add_blank_frame_before_onset=c['blank'], onset_upweight=F(c['upweight']),
         onset_window=c['window'], onset_length_ms=F(c['onset_len_ms']), offset_length_ms=F(c['offset_len_ms']),
         onset_mode=c['mode'], onset_delay_ms=F(c['delay_ms']), min_frame_occupancy_for_label=F(c['occ']),
-        onset_overlap=c['overlap'])
+        onset_overlap=c['overlap'], min_velocity=c.get('min_vel', 0)), seq
+
+
+def _s2p_raises_pure(a, before):
+    """(D) nothing is modified before raising: call again on a message we keep and compare its bytes"""
+    from note_seq import sequences_lib
+    c = a['cfg']
+    seq = _seq(a['notes'], c['total'], a['ccs'])
+    try:
+        sequences_lib.sequence_to_pianoroll(
+            seq, frames_per_second=F(c['fps']), min_pitch=c['min_pitch'], max_pitch=c['max_pitch'],
+            max_velocity=c['max_vel'], add_blank_frame_before_onset=c['blank'], onset_upweight=F(c['upweight']),
+            onset_window=c['window'], onset_length_ms=F(c['onset_len_ms']), offset_length_ms=F(c['offset_len_ms']),
+            onset_mode=c['mode'], onset_delay_ms=F(c['delay_ms']), min_frame_occupancy_for_label=F(c['occ']),
+            onset_overlap=c['overlap'])
+    except (ValueError, IndexError):
+        pass
+    return seq.SerializeToString(deterministic=True) == before
+
+
+def _meta(seq):
+    return [sorted(set((int(n.instrument), int(n.program)) for n in seq.notes)),
+            [float(t.qpm) for t in seq.tempos], int(seq.ticks_per_quarter)]
+
+
+def _decode_twice(fn, arrays, args, kw):
+    """(B) call a decoder twice on the same buffers; the buffers must be unchanged and both results equal"""
+    copies = {k: np.array(v, copy=True) for k, v in arrays.items()}
+    pos = arrays.pop('_first')
+    seq = fn(pos, *args, **arrays, **kw)
+    arrays['_first'] = pos
+    unchanged = all(np.array_equal(arrays[k], copies[k]) and arrays[k].dtype == copies[k].dtype for k in arrays)
+    pos = arrays.pop('_first')
+    seq_b = fn(pos, *args, **arrays, **kw)
+    same = seq.SerializeToString(deterministic=True) == seq_b.SerializeToString(deterministic=True)
+    return seq, [bool(unchanged), bool(same)]
 
 
 def _bits_rows(arr):
@@ -415,10 +492,19 @@ def impl(case):
     from note_seq import sequences_lib
     op, a = case['op'], case['input']
     if op == 's2p':
+        before = _seq(a['notes'], a['cfg']['total'], a['ccs']).SerializeToString(deterministic=True)
         try:
-            r = _run_s2p(a)
+            r, seq = _run_s2p(a)
         except (ValueError, IndexError) as e:
-            return _exc(e)
+            return _exc(e) + [_s2p_raises_pure(a, before)]
+        pure = seq.SerializeToString(deterministic=True) == before          # (B iii) argument not modified
+        # (B i, iii, iv) scribble on the returned buffers, call again on the same message, compare with saved copies
+        saved = [np.array(x, copy=True) for x in r]
+        for x in r:
+            x[...] = 9
+        r2, _ = _run_s2p(a)
+        pure = pure and all(np.array_equal(x, y) and x.dtype == y.dtype for x, y in zip(saved, r2))
+        r = type(r)(*saved)
         P = a['cfg']['max_pitch'] - a['cfg']['min_pitch'] + 1
         shapes = sorted(set(tuple(x.shape) for x in (r.active, r.weights, r.onsets, r.onset_velocities,
                                                       r.active_velocities, r.offsets)))
@@ -429,7 +515,7 @@ def impl(case):
                     and bool(np.array_equal(r.onset_velocities, r.active_velocities * r.onsets)))
         cc = sorted([int(i), int(j), int(r.control_changes[i, j])] for i, j in zip(*np.nonzero(r.control_changes)))
         return ['OK', int(r.active.shape[0]), [mask(x) for x in r.active], [mask(x) for x in r.onsets],
-                [mask(x) for x in r.offsets], _bits_rows(r.active_velocities), _bits_rows(r.weights), cc, shape_ok]
+                [mask(x) for x in r.offsets], _bits_rows(r.active_velocities), _bits_rows(r.weights), cc, shape_ok, pure]
     if op == 'p2s':
         T, P = a['T'], a['P']
         kw = {}
@@ -439,12 +525,13 @@ def impl(case):
             kw['offset_predictions'] = _mat(a['offsets'], T, P)
         if a.get('vv') is not None:
             kw['velocity_values'] = _vvmat(a['vv'])
+        arrays = dict(kw, _first=_mat(a['frames'], T, P))
         try:
-            seq = sequences_lib.pianoroll_to_note_sequence(_mat(a['frames'], T, P), F(a['fps']), F(a['min_dur_ms']),
-                                                           min_midi_pitch=a['mmp'], **kw)
+            seq, flags = _decode_twice(sequences_lib.pianoroll_to_note_sequence, arrays,
+                                       (F(a['fps']), F(a['min_dur_ms'])), dict(a.get('kw', {}), min_midi_pitch=a['mmp']))
         except Exception as e:  # noqa: the decoder has no documented exception on rectangular 0/1 input
             return _exc(e)
-        return ['OK'] + _notes_out(seq, lambda n: (n[2], n[0])) + [_times(seq, True)]
+        return ['OK'] + _notes_out(seq, lambda n: (n[2], n[0])) + [_times(seq, True), flags, _meta(seq)]
     if op == 'grid_on':
         T, P, fps, mn = a['T'], a['P'], F(a['fps']), a['mn']
         try:
@@ -458,9 +545,15 @@ def impl(case):
         return ['OK', _times(seq1)[1], _times(seq2, True)[1]]
     if op == 'o2s':
         T, P = a['T'], a['P']
-        seq = sequences_lib.pianoroll_onsets_to_note_sequence(_mat(a['onsets'], T, P), F(a['fps']),
-                                                              note_duration_seconds=F(a['dur']), min_midi_pitch=a['mmp'])
-        return ['OK'] + _notes_out(seq, lambda n: (n[1], n[0])) + [_times(seq)]
+        arrays = {'_first': _mat(a['onsets'], T, P)}
+        if a.get('vv') is not None:
+            arrays['velocity_values'] = _vvmat(a['vv'])
+        try:
+            seq, flags = _decode_twice(sequences_lib.pianoroll_onsets_to_note_sequence, arrays, (F(a['fps']),),
+                                       dict(a.get('kw', {}), note_duration_seconds=F(a['dur']), min_midi_pitch=a['mmp']))
+        except Exception as e:  # noqa
+            return _exc(e)
+        return ['OK'] + _notes_out(seq, lambda n: (n[1], n[0])) + [_times(seq, True), flags, _meta(seq)]
     if op == 'grid':
         T, P, fps = a['T'], a['P'], F(a['fps'])
         seq = sequences_lib.pianoroll_to_note_sequence(_mat(a['frames'], T, P), fps, 0, min_midi_pitch=a['mn'])
@@ -533,14 +626,14 @@ def model_output(case, m):
     op, a = case['op'], case['input']
     if op == 's2p':
         if m[0] == -1000:
-            return ['EXC', ERR.get(m[1], '?')]
+            return ['EXC', ERR.get(m[1], '?'), True]
         rows, act, ons, offs, vel, wts, cc = m[1]
         c = a['cfg']
         P = c['max_pitch'] - c['min_pitch'] + 1
         up = F(c['upweight'])
         velrows = [[f32bits(v / c['max_vel']) for v in _digits(z, P)] for z in vel]
         wrows = [[f32bits(1.0 if k == 0 else up / k) for k in _digits(z, P)] for z in wts]
-        return ['OK', rows, act, ons, offs, velrows, wrows, sorted(cc), True]
+        return ['OK', rows, act, ons, offs, velrows, wrows, sorted(cc), True, True]
     if op in ('p2s', 'o2s'):
         return ['OK', m[0], m[1]]
     if op == 'grid':
@@ -549,6 +642,38 @@ def model_output(case, m):
 
 
 # ---------------------------------------------------------------- oracle: the property on the implementation
+def _unscale(v, scale, bias):
+    """documented meaning of a predicted velocity: clip to [0, 1], scale, add the bias, truncate (NaN -> 0);
+    written out here so that the expectation does not depend on note_seq's helper"""
+    u = max(min(v, 1.), 0) * scale + bias
+    if math.isnan(u):
+        return 0
+    return int(u)
+
+
+# pianoroll_onsets_to_note_sequence documents `velocity` as the note velocity when velocity_values is None but
+# returns _unscale_velocity(velocity) = scale + bias (90) for every velocity >= 1: candidate defect reported in
+# notes/C18.md (fix: notes/C18-fix-3.diff).  Set to True once the fix is in /repo: the clause below then demands
+# the documented value.
+O2S_DEFAULT_VELOCITY_FIXED = False
+
+
+def _meta_failure(a, io, op):
+    kw = a.get('kw', {})
+    flags, meta = io[4], io[5]
+    if not flags[0]:
+        return {'kind': 'argument-mutated', 'op': op}
+    if not flags[1]:
+        return {'kind': 'repeat-call-differs', 'op': op}
+    pairs, qpms, tpq = meta
+    want = [(kw.get('instrument', 0), kw.get('program', 0))]
+    if pairs and [tuple(x) for x in pairs] != want:
+        return {'kind': 'instrument-program', 'op': op, 'expected': want, 'got': pairs}
+    if qpms != [kw.get('qpm', 120.0)] or tpq != 220:
+        return {'kind': 'tempo-or-resolution', 'op': op, 'got': [qpms, tpq]}
+    return None
+
+
 def _runs(col):
     """maximal runs [a, b) of a 0/1 list"""
     out = []
@@ -591,6 +716,14 @@ def oracle(case, io):
             # rectangular 0/1 matrices of equal shape: the decoder must not raise
             return {'kind': 'decoder-raises', 'fps': F(a['fps']), 'min_midi_pitch': a['mmp'], 'exc': io[1],
                     'onsets': a['onsets'] is not None, 'velocity_values': a.get('vv') is not None}
+        if op == 's2p' and io[0] == 'EXC' and not io[2]:
+            return {'kind': 'argument-mutated', 'op': 's2p', 'when': 'before raising'}
+        if op == 's2p' and io[0] == 'EXC' and io[1] != 'ValueError':
+            c = a['cfg']
+            inr = [n for n in a['notes'] if c['min_pitch'] <= n[0] <= c['max_pitch']]
+            first = next((n for n in sorted(inr, key=lambda n: F(n[2]))), None)
+            if inr and c['mode'] not in MODES:
+                return {'kind': 'wrong-exception-class', 'expected': 'ValueError', 'got': io[1]}
         if op == 's2p' and io[0] == 'EXC':
             # a well-formed sequence in a plain configuration must convert: every velocity within max_velocity,
             # every note inside total_time, known onset mode, ANY onset delay, occupancy off, overlapping onsets
@@ -612,7 +745,7 @@ def oracle(case, io):
         fr = [unmask(m, P) for m in a['frames']]
         on = None if a['onsets'] is None else [unmask(m, P) for m in a['onsets']]
         off = None if a['offsets'] is None else [unmask(m, P) for m in a['offsets']]
-        from note_seq import sequences_lib
+        kw_ = a.get('kw', {})
         vvm = None if a.get('vv') is None else _vvmat(a['vv'])
         exp = []
         for p in range(P):
@@ -625,9 +758,9 @@ def oracle(case, io):
                 if (et - st) * 1000 >= md:
                     # velocity: the default 70, or the value predicted for this pitch in the note's first frame
                     # (velocity_values are only read together with onset predictions)
-                    vel = 70
+                    vel = kw_.get('velocity', 70)
                     if vvm is not None and on is not None:
-                        vel = sequences_lib._unscale_velocity(vvm[s, p], 80, 10)
+                        vel = _unscale(vvm[s, p], kw_.get('velocity_scale', 80), kw_.get('velocity_bias', 10))
                     exp.append([p + a['mmp'], H(st), H(et), int(vel)])
         exp.sort()
         tot, got = io[3]
@@ -643,19 +776,34 @@ def oracle(case, io):
                     'extra': [[x[0], F(x[1]), F(x[2])] for x in extra[:3]]}
         if F(tot) != (T + 1) * fl:
             return {'kind': 'decoder-total-time', 'fps': fps, 'got': F(tot)}
-        return None
+        return _meta_failure(a, io, op)
     if op == 'o2s':
         T, P, fps = a['T'], a['P'], F(a['fps'])
         fl = 1 / fps
         dur = F(a['dur'])
-        exp = sorted([p + a['mmp'], H(i * fl), H(i * fl + dur)]
-                     for i in range(T) for p in range(P) if (a['onsets'][i] >> p) & 1)
+        kw_ = a.get('kw', {})
+        vvm = None if a.get('vv') is None else _vvmat(a['vv'])
         tot, got = io[3]
-        if got != exp:
-            return {'kind': 'onset-decoder-mismatch', 'fps': fps}
+        exp = []
+        for i in range(T):
+            for p in range(P):
+                if (a['onsets'][i] >> p) & 1:
+                    if vvm is not None:
+                        vel = _unscale(vvm[i, p], kw_.get('velocity_scale', 80), kw_.get('velocity_bias', 10))
+                    elif O2S_DEFAULT_VELOCITY_FIXED:
+                        vel = kw_.get('velocity', 70)
+                    else:
+                        vel = None      # see O2S_DEFAULT_VELOCITY_FIXED
+                    exp.append([p + a['mmp'], H(i * fl), H(i * fl + dur), vel])
+        exp.sort(key=lambda x: x[:3])
+        if [x[:3] for x in got] != [x[:3] for x in exp]:
+            return {'kind': 'onset-decoder-mismatch', 'fps': fps, 'min_midi_pitch': a['mmp']}
+        for g, e in zip(got, exp):
+            if e[3] is not None and g[3] != e[3]:
+                return {'kind': 'onset-decoder-velocity', 'fps': fps, 'expected': e, 'got': g}
         if F(tot) != T * fl + dur:
             return {'kind': 'onset-decoder-total-time', 'fps': fps}
-        return None
+        return _meta_failure(a, io, op)
     if op == 'grid':
         return _oracle_grid(a, io)
     if op == 'grid_on':
@@ -666,8 +814,7 @@ def oracle(case, io):
             return {'kind': 'onset-roundtrip-notes', 'fps': F(a['fps']), 'min_midi_pitch': a['mn'],
                     'expected': len(n1), 'got': len(n2),
                     'missing': [[x[0], F(x[1]), F(x[2])] for x in n1 if x not in [y[:3] for y in n2]][:3]}
-        from note_seq import sequences_lib
-        want = int(sequences_lib._unscale_velocity(np.float32(70 / 127.), 80, 10)) if a['vel'] else 70
+        want = _unscale(np.float32(70 / 127.), 80, 10) if a['vel'] else 70
         if any(x[3] != want for x in n2):
             return {'kind': 'onset-roundtrip-velocity', 'fps': F(a['fps']), 'min_midi_pitch': a['mn'], 'expected': want}
         return None
@@ -715,6 +862,15 @@ def _oracle_s2p(a, io):
     rows = io[1]
     if not io[8]:
         return {'kind': 'roll-shapes-inconsistent', 'fps': fps}
+    if not io[9]:
+        return {'kind': 'argument-mutated-or-repeat-call-differs', 'op': 's2p'}
+    # (D) rejection paths: a velocity above max_velocity on ANY in-range note, or an unknown onset mode with at
+    # least one in-range note, must raise ValueError (checked here because the call returned normally)
+    inr = [n for n in a['notes'] if c['min_pitch'] <= n[0] <= c['max_pitch']]
+    if any(n[1] > c['max_vel'] for n in inr):
+        return {'kind': 'missing-rejection', 'what': 'velocity above max_velocity', 'fps': fps}
+    if inr and c['mode'] not in MODES:
+        return {'kind': 'missing-rejection', 'what': 'unknown onset mode', 'fps': fps}
     if rows != int(total * fps + 1):
         return {'kind': 'roll-length', 'fps': fps, 'rows': rows, 'expected': int(total * fps + 1)}
     notes = [(p, v, F(s), F(e)) for p, v, s, e in a['notes'] if mn <= p <= mx]
